@@ -140,6 +140,8 @@ fn collect(prop: &PropDef, tier: &str, c: &Child, status: i32, timed_out: bool) 
         }
     };
     let _ = std::fs::remove_dir_all(&c.dir);
+    let mut res = res;
+    res.wall_ms = c.started.elapsed().as_millis() as u64;
     res
 }
 
